@@ -125,8 +125,12 @@ def createMembers : Nat → List Y → List String → FR Unit
         | _ => Except.error (.crash "TypeError: field type node")
       let cls ← reqK "class" ftm
       if cls = .str "structure" then Except.error (.other "Nested structure field types are not supported")
-      let _ ← createFt fuel ft
-      createMembers fuel rest (name :: seen)
+      let k ← createFt fuel ft
+      -- a dynamic array member brings its generated length member `__<name>_len` (finding F31, repaired)
+      let lenName := "__" ++ name ++ "_len"
+      if k = .darr ∧ seen.contains lenName then
+        Except.error (.other s!"Duplicate member `{lenName}`")
+      createMembers fuel rest (if k = .darr then lenName :: name :: seen else name :: seen)
     | .map [] => .error (.crash "IndexError: empty member node")
     | _ => .error (.crash "AttributeError: member node")
 end
